@@ -277,6 +277,8 @@ def run_real(chart, ops, host="plain", spied=False, builder=None):
     fns = (builder or chart.build)(log, spied=spied, counter=hsm._vp_count)
     inv = {getattr(getattr(f, "__wrapped__", f), "__name__"): i for i, f in fns.items()}
     out = []
+    names = []
+    hsm._vp_names = names
     for o, a in ops:
         del log[:]
         hsm._vp_calls = 0
@@ -292,6 +294,13 @@ def run_real(chart, ops, host="plain", spied=False, builder=None):
                 res = state_id(hsm.child_state(fns[a] if a else hsm.top), inv)
             st = state_id(hsm.state.fun, inv)
             tp = state_id(hsm.temp.fun, inv)
+            rec = {"state_name": getattr(hsm, "state_name", None),
+                   "state_fn": state_id(getattr(hsm, "state_fn", None), inv), "current_state": None}
+            if host == "queued" and spied:
+                n_before = len(log)
+                rec["current_state"] = hsm.current_state()
+                del log[n_before:]
+            names.append(rec)
             vis = [(i, k) for i, k in log]
             head = "ok" if res is None else "ok res=%d" % res
             out.append("%s state=%d temp=%d log=%s" % (head, st, tp, fmt_log(vis)))
